@@ -346,6 +346,21 @@ impl PartialOrd for Value {
 
 impl Ord for Value {
     fn cmp(&self, other: &Self) -> Ordering {
+        // Containers are compared with the total order of their elements so that `cmp` stays
+        // a total order (and only returns `Equal` for equal values) even when some elements
+        // are not comparable with `partial_cmp`
+        match (&self.inner, &other.inner) {
+            (ValueInner::Array(a), ValueInner::Array(b)) => return a.iter().cmp(b.iter()),
+            (ValueInner::Map(a), ValueInner::Map(b)) => {
+                let mut a: Vec<_> = a.iter().collect();
+                let mut b: Vec<_> = b.iter().collect();
+                a.sort_by(|x, y| x.0.cmp(y.0));
+                b.sort_by(|x, y| x.0.cmp(y.0));
+                return a.cmp(&b);
+            }
+            _ => {}
+        }
+
         if let Some(res) = self.partial_cmp(other) {
             return res;
         }
